@@ -32,6 +32,9 @@ def _copy_attr_spec(attr_spec: Attr) -> Attr:
     return new
 
 
+_WARNING_FILTERS_LOCK = RLock()
+
+
 def _check_object_new_arguments(cls: type):
     """
     `object.__new__` accepts (and ignores) constructor arguments only for
@@ -568,7 +571,11 @@ class spec_class:
         redeclared=None,
     ):
         owner = owner or spec_cls
-        with warnings.catch_warnings():
+        # (`catch_warnings` saves and restores the process-global filter list, and
+        # is not thread-safe: two classes being bootstrapped at the same time -
+        # each under its own lock - must not interleave here, or the "ignore"
+        # filter of one is restored by the other and stays for good.)
+        with _WARNING_FILTERS_LOCK, warnings.catch_warnings():
             warnings.simplefilter("ignore")
             attr_value = getattr(spec_cls, attr, MISSING)
         if inherited is not None and not isinstance(
